@@ -149,6 +149,12 @@ func c09SymlinkOS(root, oldname, newname string) string {
 	if err != nil || !lst || fi.Mode()&os.ModeSymlink == 0 {
 		return fmt.Sprintf("fail: LstatIfPossible(%q) does not describe the link (%v)", newname, err)
 	}
+	// Stat follows the link, exactly as the source's Stat of D/new does (a link to a file, to a directory, to nothing)
+	sfi, serr := b.Stat(newname)
+	rfi, rerr := os.Stat(filepath.Join(D2, rel(realNew, D)))
+	if (serr == nil) != (rerr == nil) || (serr == nil && (sfi.Mode().Type() != rfi.Mode().Type() || sfi.IsDir() != rfi.IsDir() || (!sfi.IsDir() && sfi.Size() != rfi.Size()))) {
+		return fmt.Sprintf("fail: Stat(%q) through the wrapper: %v, %v; the reference: %v, %v", newname, sfi, serr, rfi, rerr)
+	}
 	got, err1 := afero.ReadFile(b, newname)
 	ref, err2 := os.ReadFile(filepath.Join(D2, rel(realNew, D)))
 	if (err1 == nil) != (err2 == nil) || string(got) != string(ref) {
